@@ -190,6 +190,42 @@ def classify(key, kind, what):
     return None, None
 
 
+_LOOKUPS = ("get", "get_mut", "get_type", "get_directive", "get_fragment", "get_file", "find", "find_map", "position", "rposition", "remove", "parse",
+            "from_str_radix", "from_utf8", "from_u32", "from_digit", "to_str", "into_string", "binary_search", "strip_prefix", "strip_suffix",
+            "split_once", "rsplit_once", "nth", "to_digit", "first", "file_name", "parent", "as_object", "as_interface", "as_union", "as_enum", "as_scalar",
+            "as_input_object")
+_STRUCTURAL = ("pop", "last", "last_mut", "first_mut", "take", "next", "next_back", "peek", "into_iter", "iter", "as_mut", "as_ref", "borrow", "borrow_mut",
+               "lock", "write_fmt", "write_str", "new", "try_into", "get_or_insert_with", "max", "min")
+
+
+def _input_keyed(fn, node):
+    """is the value unwrapped at this site produced (directly or through locals) by a look-up keyed by data, or by parsing text?"""
+    pv = Prov(fn)
+    if node.get("k") == "MethodCall":
+        src = node["recv"]
+    else:
+        src = node
+    calls = [a[1].split("::")[-1] for a in pv.atoms(src) if a[0] == "call"]
+    direct = []
+    e = src
+    while e.get("k") in ("MethodCall", "Call", "AddrOf", "DropTemps", "Unary", "Field"):
+        if e.get("k") in ("MethodCall", "Call"):
+            direct.append((call_name(e) or "").split("::")[-1])
+            e = e["recv"] if e.get("k") == "MethodCall" else (e["args"][0] if e["args"] else {})
+        else:
+            e = e.get("e", {})
+    names = direct if direct else calls
+    if any(n in _LOOKUPS for n in names[:2]):
+        # keyed by something that comes from a field / parameter (document or schema data)?
+        return True
+    if names and names[0] in _STRUCTURAL:
+        return False
+    if not names:
+        # a plain local: look at what it was bound from
+        return any(n in _LOOKUPS for n in calls) and not any(n in _STRUCTURAL for n in calls[:1])
+    return any(n in _LOOKUPS for n in names)
+
+
 def _entries(P, R, rule, loader=True):
     """public entry points; one that was renamed or removed makes its part of the inventory undecided, not the whole rule"""
     ents = []
@@ -251,7 +287,7 @@ def r08a(P, R):
                         R.check("R08-a", "grammar:" + skey, ok, "unreachable: OperationType texts are all handled (R07-b)", "operation type text not handled", loc=loc)
                         continue
             if cls is None:
-                deferred.append((p, key, skey, kind, what, loc))
+                deferred.append((p, key, skey, kind, what, loc, node))
                 continue
             classes[cls] = classes.get(cls, 0) + 1
             if cls == "FINDING":
@@ -263,13 +299,20 @@ def r08a(P, R):
                 R.holds("R08-a", cls.lower() + ":" + skey, why, loc=loc)
     # sites without a row of their own: either moved by a refactoring (a row of the same module, kind and message lost its site),
     # or genuinely new
-    for p, key, skey, kind, what, loc in deferred:
+    for p, key, skey, kind, what, loc, node in deferred:
         rows = inherited_rows(P, P.fns[p], kind, what)
         if not rows:
             if kind in BOUNDS_KINDS:
                 # a bounds / zero check the table has not seen: whether the index is always in range is a value question this
                 # inventory cannot settle either way (string slicing by computed offsets is decided by R08-c)
                 R.undecided("R08-a", "unreviewed-bounds:" + skey, "new `%s` site on %s in %s: not in the panic table, range not decided" % (kind, what, p), loc=loc)
+                continue
+            if kind in ("unwrap", "expect", "unwrap_err", "expect_err", "assert", "assert_eq", "assert_ne") and not _input_keyed(P.fns[p], node):
+                # `stack.last().expect("not empty")`, `slot.take().expect("refilled")`, `assert_eq!(a.len(), b.len())`: the unwrapped
+                # value does not come from a look-up keyed by document/schema data or a parse of input text, so this is a local
+                # invariant of the code, not an input-reachable panic this inventory can point at
+                R.undecided("R08-a", "unreviewed-invariant:" + skey, "new `%s` (%s) in %s states a local invariant (no keyed look-up or parse of "
+                            "input behind it); not in the panic table, not decided" % (kind, what, p), loc=loc)
                 continue
             R.violated("R08-a", "unreviewed:" + skey, "unreviewed panic path: `%s` (%s) in %s is reachable from a public entry point and has no "
                        "justification in the panic table" % (kind, what, p), loc=loc)
@@ -401,13 +444,16 @@ def r08b(P, R):
                     if has_field(pv.atoms(x["args"]), "nitrogql_ast::selection_set::FragmentSpread", "fragment_name"):
                         seen_guard.append(p)
                         break
-        if FRAGMAP_UNGUARDED in comp:
-            has_seen = bool(seen_guard) or any(x.get("k") == "MethodCall" and x["method"] == "contains" for x in P.fns[FRAGMAP_UNGUARDED].walk())
+        in_type_printer = any("operation_type_printer::type_printer" in p for p in comp)
+        if FRAGMAP_UNGUARDED in comp or (through_map and in_type_printer):
+            # the type printer's fragment expansion (whatever its functions are called today): one finding, one key
+            anchor = P.fns[FRAGMAP_UNGUARDED] if FRAGMAP_UNGUARDED in comp else P.fns[through_map[0]]
+            has_seen = bool(seen_guard) or any(x.get("k") == "MethodCall" and x["method"] == "contains" and "str" in norm(x.get("recv_ty", "")) for p in comp for x in P.fns[p].walk())
             R.check("R08-b", "fragment-recursion-in-type-printer", has_seen,
                     "fragment expansion in the type printer is guarded",
-                    "get_fields_for_selection_set follows fragment spreads through the fragment map without a seen-set; it relies on the checker's "
+                    "%s follows fragment spreads through the fragment map without a seen-set; it relies on the checker's "
                     "RecursingFragmentSpread, which is only enforced for fragments reachable from an operation: an unused `fragment A on T { ...A }` "
-                    "passes check and recurses without bound in generate", loc=P.fns[FRAGMAP_UNGUARDED].loc())
+                    "passes check and recurses without bound in generate" % short(anchor.path), loc=anchor.loc())
             continue
         if through_map and not guarded and not seen_guard:
             R.violated("R08-b", key, "recursive cycle %s follows a name -> fragment map without a seen-set guard" % [short(c) for c in comp], loc=P.fns[comp[0]].loc())
@@ -520,7 +566,11 @@ def r08c(P, R):
             if c.get("k") == "MethodCall" and c["method"] in ("insert", "get", "contains_key", "remove", "entry", "get_mut") and c["args"] \
                     and any(y.get("k") == "Field" and y.get("field") == "loaded_files" and norm(y.get("adt", "")) == TASK for y in subnodes(c["recv"])):
                 pv = pv or Prov(f)
-                norms = tuple(sorted(short(a[1]) for a in pv.atoms(c["args"][0]) if a[0] == "call" and a[1] in P.fns))
+                # key form = the path-shaping workspace functions applied to the key at this access (functions that return a path or
+                # string); iterator-producing or look-up helpers are not a form
+                norms = tuple(sorted(short(a[1]) for a in pv.atoms(c["args"][0]) if a[0] == "call" and a[1] in P.fns
+                                     and any(t in (P.fns[a[1]].sig_output or "") for t in ("PathBuf", "Path", "String", "str"))
+                                     and "Iterator" not in (P.fns[a[1]].sig_output or "") and "impl " not in (P.fns[a[1]].sig_output or "")))
                 forms.setdefault(norms, []).append("%s.%s" % (f.name, c["method"]))
     R.floor("R08-c", "Task.loaded_files accesses", sum(len(v) for v in forms.values()), 4)
     R.check("R08-c", "loaded-files-key-form", len(forms) == 1, "all accesses use the same key form %s" % (list(forms) or "?"),
